@@ -158,6 +158,16 @@ def monitor_cp_rules(case, skip_region_rules):
         if e.get('pool_dirty'):
             return ('event %d: no dispatcher has a kernel (all work-groups completed) but the shared CU resource pool '
                     'is not back to its initial state: %s' % (i, e['pool_dirty']))
+        if e['e'] == 'tick' and e.get('progress') is False and e.get('quiet'):
+            # the CP reports no progress (akita puts it to sleep until a message arrives) and no message is
+            # anywhere: a launch whose selected work-groups were all mapped and reported will never be answered
+            owed = [lid for lid in launches if lid not in answered]
+            if owed and all((lid, idx) in mapped and mapped[(lid, idx)] in done
+                            for lid in owed for idx in range(len(launches[lid]['wgs']))):
+                lid = owed[0]
+                return ('event %d: launch %d (%d selected work-groups, all mapped and reported complete) is never answered: '
+                        'the command processor makes no progress and all its ports are empty'
+                        % (i, lid, len(launches[lid]['wgs'])))
         if e['e'] == 'launch' and e.get('acc'):
             if e['launch']['id'] in launches:
                 return None
@@ -432,6 +442,13 @@ def main(argv):
         'cp_one_dispatcher_sequences': sum(1 for c in cp_cases if c.get('seq')),
         'cp_one_dispatcher_sequences_with_3_or_more_responses':
             sum(1 for c in cp_cases if c.get('seq') and sum(1 for e in c['events'] if e.get('rsp') is not None) >= 3),
+        'cp_launches_by_wgfilter': dict(collections.Counter(
+            'no filter' if not e['launch'].get('filter') else 'selects none' if not e['launch']['wgs'] else
+            'selects one' if len(e['launch']['wgs']) == 1 else 'selects several'
+            for c in cp_cases for e in c['events'] if e['e'] == 'launch' and e.get('acc'))),
+        'cp_zero_workgroup_launches_answered': sum(
+            1 for c in cp_cases for e in c['events'] if e.get('rsp') is not None and
+            any(x['e'] == 'launch' and x.get('acc') and x['launch']['id'] == e['rsp'] and not x['launch']['wgs'] for x in c['events'])),
         'cp_state_inspections_after_tick': sum(1 for c in cp_cases for e in c['events'] if e['e'] == 'tick'),
         'cp_launches_by_packet_lds': dict(collections.Counter(
             'none' if not e['launch'].get('dyn') else 'equal' if e['launch']['dyn'] == e['launch']['lds'] else
